@@ -208,6 +208,29 @@ def build(run):
     for inm, mk in [dg0[0], dg0[2], dg0[3]]:
         e2e(f"derivative/second wrt a DG0 coefficient/{inm}", lambda mk=mk: (mk() * dx, derivative(derivative(mk() * dx, c0, vc0), c0, v2c0), [whole(c0, vc0), whole(c0, v2c0)]))
 
+    # the direction is a COMPONENT of an argument (of a vector argument, of a mixed argument) or a list of such components: the
+    # variation of w is then v[c], and D(grad w) = grad(v)[c, :] whatever the shape of w itself
+    grad_f = ("grad f . grad f", "hessian", "f*f", "f**3*g", "x-dependent", "conditional", "sqrt(1+f^2)", "variable")
+    for inm, mk in integrands:
+        if inm in grad_f or thorough:
+            e2e(f"derivative/f in the direction of a component vu[1]/{inm}",
+                lambda mk=mk: (mk() * dx, derivative(mk() * dx, f, vu[1]), [comp_seed(f, {(): (vu, (1,))})]))
+    for inm, mk in integrands:
+        if inm in ("grad f . grad f", "hessian", "f**3*g"):
+            e2e(f"derivative/f in the direction of a mixed argument's scalar part/{inm}",
+                lambda mk=mk: (mk() * dx, derivative(mk() * dx, f, split(vm)[1]), [comp_seed(f, {(): (vm, (2,))})]))
+            e2e(f"derivative/f in the direction of a tensor argument's entry vA[1,0]/{inm}",
+                lambda mk=mk: (mk() * dx, derivative(mk() * dx, f, vA[1, 0]), [comp_seed(f, {(): (vA, (1, 0))})]))
+        if inm in ("u.u", "f div u", "sym grad u : grad u", "inner(grad u, grad u)", "dot(u,u)*div(u)", "u A u"):
+            e2e(f"derivative/u[1] in the direction vu[0]/{inm}",
+                lambda mk=mk: (mk() * dx, derivative(mk() * dx, u[1], vu[0]), [comp_seed(u, {(1,): (vu, (0,))})]))
+            e2e(f"derivative/u in the direction as_vector([vu[1], vu[0]])/{inm}",
+                lambda mk=mk: (mk() * dx, derivative(mk() * dx, u, as_vector([vu[1], vu[0]])), [comp_seed(u, {(0,): (vu, (1,)), (1,): (vu, (0,))})]))
+            e2e(f"derivative/u in the direction as_vector([vf, 0])/{inm}",
+                lambda mk=mk: (mk() * dx, derivative(mk() * dx, u, as_vector([vf, 0])), [comp_seed(u, {(0,): (vf, ())})]))
+            e2e(f"derivative/u in the direction of a mixed argument's vector part/{inm}",
+                lambda mk=mk: (mk() * dx, derivative(mk() * dx, u, split(vm)[0]), [comp_seed(u, {(0,): (vm, (0,)), (1,): (vm, (1,))})]))
+
     # mixed space coefficient, split, whole derivative
     def mixed():
         mu, mp = split(m)
